@@ -249,9 +249,18 @@ def allowed_subset(fmt, rng):
                        sorted(set([fmt] + rng.sample(G.FORMATS, 3)), key=G.FORMATS.index)])
 
 
-def vsize_via_wrapper(fmt, data, sizes, allowed=None, how='read', companion=None):
+def vsize_via_wrapper(fmt, data, sizes, allowed=None, how='read', companion=None, k=1, form=0):
     """the stream presented through InspectWrapper (read() calls of the given sizes, or iteration over a chunk
     source), closed; virtual_size of the wrapper's inspector for `fmt` and the format the wrapper reports"""
+    if not companion:
+        # any consumption protocol / call form of the wrapper (insp_gen.drive_wrapper)
+        how = {'iter': 'for'}.get(how, how)
+        tail = G.drive_wrapper(data, sizes, how, allowed, None, k, form)
+        if tail.startswith('COPIES-DIFFER'):
+            return tail[:300], '?'
+        end, fs, per = tail.split('\t')
+        own = [x for x in per.split(';') if x.split(' ', 1)[0].rstrip('!') == fmt]
+        return (G.vfield(own[0], 'vsize') if own else 'no-inspector'), fs.split('/')[0]
     F = insp_impl.fi()
     comp = G.WrapCompanion(companion[0], companion[1], companion[2], allowed) if companion else None
     if comp:
@@ -299,7 +308,12 @@ def check_wellformed(ctx, img, expected, fam, fails, what, poll_p=0.35, forced=N
             for feed, ctor in (pres if full else rng.sample(pres, 1)):
                 variants.append(dict(feed=feed, ctor=ctor))
         if len(sizes) <= 1200 and (full or rng.random() < 0.25):
-            variants.append(dict(wrapper=rng.choice(['read', 'iter']), allowed=allowed_subset(img.fmt, rng)))
+            drive = rng.choice(G.WRAPPER_DRIVES) if len(sizes) >= 2 else rng.choice(['read', 'for', 'next', 'close-twice'])
+            variants.append(dict(wrapper=drive, k=rng.randrange(1, max(2, len(sizes))), form=rng.randrange(64),
+                                 allowed=allowed_subset(img.fmt, rng)))
+            if full and len(sizes) >= 2:
+                for drive in G.WRAPPER_DRIVES:
+                    variants.append(dict(wrapper=drive, k=rng.randrange(1, len(sizes)), form=rng.randrange(64), allowed=None))
         pool = ctx.__dict__.setdefault('_c07_pool', {}).setdefault(img.fmt, [])
         if len(sizes) <= 1200 and (full or tag in ('one', 'fixed512') or rng.random() < 0.1):
             # another object of the same class alive at the same time, fed another image / non-matching data
@@ -320,7 +334,8 @@ def check_wellformed(ctx, img, expected, fam, fails, what, poll_p=0.35, forced=N
             def vs(sz, v=v):
                 comp = G.companion_of_case(v)
                 if 'wrapper' in v:
-                    return vsize_via_wrapper(img.fmt, img.data, sz, v['allowed'], v['wrapper'], comp)[0]
+                    return vsize_via_wrapper(img.fmt, img.data, sz, v['allowed'], v['wrapper'], comp,
+                                             min(v.get('k', 1), max(1, len(sz) - 1)), v.get('form', 0))[0]
                 return vsize_of(img.fmt, img.data, sz, v.get('poll'), v.get('feed', 'bytes'), v.get('ctor'), comp)
             got = vs(sizes)
             if got == want:
@@ -349,7 +364,8 @@ def check_wellformed(ctx, img, expected, fam, fails, what, poll_p=0.35, forced=N
             elif 'poll' in v:
                 how = '; observers queried after %s' % ('every chunk' if v['poll'] == 'all' else 'chunks %s' % v['poll'][:10])
             elif 'wrapper' in v:
-                how = '; stream presented through InspectWrapper(allowed_formats=%s) by %s' % (v['allowed'], 'read()' if v['wrapper'] == 'read' else 'iteration')
+                how = '; stream presented through InspectWrapper(allowed_formats=%s), protocol "%s" (interrupted after chunk %s, call form %s)' % (
+                    v['allowed'], v['wrapper'], v.get('k'), v.get('form'))
             elif v:
                 how = '; chunks presented as %s to %s(%s)' % (v['feed'], img.fmt, ', '.join('%s=%s' % kv for kv in sorted(v['ctor'].items())))
             fails.append(Failure(case, {
@@ -564,11 +580,11 @@ def replay(ctx, payload):
             al = case.get('allowed')
             impl = insp_impl.run_wrap(al, None, data, sizes)[0]
             model = ctx.driver.ask(G.wrap_line(case['content'], sizes, al))
-            v, f = vsize_via_wrapper(fmt, data, sizes, al, case['wrapper'], G.companion_of_case(case))
+            v, f = vsize_via_wrapper(fmt, data, sizes, al, case['wrapper'], G.companion_of_case(case), case.get('k', 1), case.get('form', 0))
             if case.get('companion'):
                 print('  a second InspectWrapper alive at the same time (%s)' % case['companion']['mode'])
-            print('  through InspectWrapper(allowed_formats=%s) by %s: format %s, virtual_size of its %s inspector: %s'
-                  % (al, 'read()' if case['wrapper'] == 'read' else 'iteration', f, fmt, v))
+            print('  through InspectWrapper(allowed_formats=%s), protocol "%s" (k=%s, form %s): format %s, virtual_size of its %s inspector: %s'
+                  % (al, case['wrapper'], case.get('k'), case.get('form'), f, fmt, v))
             print('  implementation:', impl.split('\t', 2)[-1][-1500:])
             print('  model         :', model.split('\t', 2)[-1][-1500:])
             got.append(v)
